@@ -222,14 +222,16 @@ theorem sound_push_add :
   cases h2 : σ.ops <;> simp [h2]
 
 theorem sound_push_sub (L : PrimLaws P) :
-    Sound P call { lhs := ["PUSH", "SUB"], guards := [.nec 0 .A 0], rhs := "INCDEC",
+    Sound P call { lhs := ["PUSH", "SUB"], guards := [.nec 0 .A 0, .nec 0 .A (-9223372036854775808)], rhs := "INCDEC",
                    a := .neg 0 .A, b := .none, c := .none, pos := 1 } := by
+  -- (the second guard keeps the rule away from the one constant whose negation does not fit the 64-bit operand
+  -- of the real instruction; over the unbounded operands of the model it is not needed)
   intro w σ h _
   obtain ⟨i, j, X, rfl, hi, hj, hg⟩ := window2 rfl h
   simp [guardOk, Instr.fld] at hg
   simp only [List.length_cons, List.length_nil, List.take_succ_cons, List.take_zero, run, build, srcVal, Instr.fld]
   simp [exec1, hi, hj, arith]
-  cases h2 : σ.ops <;> simp [h2, L.sub_untyped _ _ hg]
+  cases h2 : σ.ops <;> simp [h2, L.sub_untyped _ _ hg.1]
 
 theorem sound_jump0 :
     Sound P call { lhs := ["JUMP"], guards := [.eqc 0 .A 0], rhs := "PASS",
